@@ -8,6 +8,12 @@ for nt, tiers in ((1, ("quick", "thorough")), (2, ("quick", "thorough")), (3, ("
              "notified iff something was replaced, with the first replaced block; memory and table keep exactly the survivors" % nt,
         harness=R + "ZZVerif_C06_Detect", params={"NT": nt}, tiers=tiers, reach=["reorg", "noreorg"], time_limit_s=1500,
         bounds="%d consecutive tracked blocks starting at 1..3, finalized block 0..6, every replaced/kept pattern, arbitrary hashes" % nt))
+for nt, k, tiers in ((3, 2, ("quick", "thorough")), (2, 1, ("quick", "thorough")), (4, 2, ("thorough",)), (3, 3, ("thorough",))):
+    OBLIGATIONS.append(dict(
+        name="C06.f node stopped during a reorg: %d tracked blocks, the last %d replaced; a detector restarted after the notification and before the subscriber's "
+             "acknowledgement still tracks every replaced block" % (nt, k),
+        harness=R + "ZZVerif_C06_StopDuringReorg", params={"NT": nt, "K": k}, tiers=tiers, reach=["served"], time_limit_s=1500,
+        bounds="%d consecutive tracked blocks from 1, any finalized block below the replaced ones, arbitrary hashes" % nt))
 OBLIGATIONS.append(dict(
     name="C06.a driver handleNewBlock: a non-finalized block is tracked (successfully) before it is processed; finalized blocks are not tracked",
     harness="github.com/agglayer/aggkit/sync.ZZVerif_C05_Driver", reach=["tracked"],
@@ -16,6 +22,6 @@ OBLIGATIONS.append(dict(
     name="C06.d driver handleReorg: downloader stopped, store rewound to the notified block (retrying), then acknowledged",
     harness="github.com/agglayer/aggkit/sync.ZZVerif_C06_HandleReorg", bounds="0..2 transient failures of Reorg, any block number"))
 ASSUMPTIONS = ["block hash = uninterpreted function of (parent hash, state root, number, time) (real RLP/Keccak natively)",
-               "subscriber hand-shake through buffered channels with ready acknowledgements (no goroutines in the model)", "SQL model of SQLite",
+               "subscriber hand-shake through buffered channels with ready acknowledgements; in C06.f the subscriber side runs when the detector blocks on the acknowledgement (cooperative model; a goroutine natively)", "SQL model of SQLite",
                "errgroup runs its functions inline, one subscriber"]
-OUTSIDE = "concurrency between the detector and the driver; the driver part (handleNewBlock tracks before processing, handleReorg): pending; several subscribers"
+OUTSIDE = "concurrency between the detector and the driver; several subscribers"
